@@ -198,7 +198,11 @@ func runSweep40(a *args) {
 	}
 	close(work)
 	var wg sync.WaitGroup
-	for w := 0; w < runtime.GOMAXPROCS(0); w++ {
+	nworkers := runtime.GOMAXPROCS(0)
+	if prop == "C17" {
+		nworkers = 1 // allocation counts are process-wide: measure alone
+	}
+	for w := 0; w < nworkers; w++ {
 		wg.Add(1)
 		go func() {
 			defer wg.Done()
@@ -241,6 +245,14 @@ func runSweep40(a *args) {
 									Input: o.Vector(), Expected: float64(want) / 10, Observed: map[string]interface{}{"score": fmtF(got), "panic": msg},
 									Extra:  map[string]interface{}{"exact_tie": tb.tie[vw]},
 									Replay: map[string]interface{}{"mode": "score1", "ver": "4.0", "vector": o.Vector(), "want_tenths": want}})
+							}
+						case "C17":
+							if p {
+								break
+							}
+							if n := minAllocs(3, nil, func() { sinkF = o.Score("score") }); n != 0 {
+								col.violate(Violation{Property: prop, Kind: "allocation budget exceeded", Version: "4.0", Input: map[string]interface{}{"vector": o.Vector(), "call": "Score()"},
+									Expected: map[string]interface{}{"allocs": 0, "exactly": true}, Observed: n})
 							}
 						case "C12":
 							if p {
